@@ -48,6 +48,11 @@ static inline const char *intform_name(int f) {
     static const char *n[] = { "minimal", "sign-octets-padded", "missing-leading-zero", "opposite-sign-octet", "zero-length", "len-81", "len-82", "len-indefinite" };
     return n[f];
 }
+// drawn INTEGER form for a tape byte: every non-minimal form, "missing leading zero" and sign padding twice as often
+static inline int intform_pick(unsigned x) {
+    static const uint8_t w[] = { IF_SIGNPAD, IF_NOSIGN, IF_WRONGPAD, IF_ZEROLEN, IF_LF81, IF_LF82, IF_INDEF, IF_NOSIGN, IF_SIGNPAD, IF_NOSIGN };
+    return w[x % sizeof w];
+}
 static inline B len_min(size_t n) { B r; if (n < 128) r.push_back((uint8_t) n); else if (n < 256) { r.push_back(0x81); r.push_back((uint8_t) n); } else { r.push_back(0x82); r.push_back((uint8_t) (n >> 8)); r.push_back((uint8_t) n); } return r; }
 static inline B len_81(size_t n) { if (n > 255) return len_min(n); return B{ 0x81, (uint8_t) n }; }
 static inline B len_82(size_t n) { return B{ 0x82, (uint8_t) (n >> 8), (uint8_t) n }; }
